@@ -443,11 +443,14 @@ class MementoFunction(MementoFunctionBase):
                             [rule.describe() for rule in changed_rules],
                         )
                     )
-                else:
-                    if self._calculated_version is None:
-                        self._calculated_version = entry.version()
+                elif self._calculated_version == entry.version:
+                    # This instance is up to date with the cached version
+                    if self._fn_reference is None:
                         self._update_fn_reference()
                     return
+                # Otherwise the cache entry was refreshed through another instance wrapping
+                # the same function (a clone or an unregistered wrapper): this instance still
+                # has to collect its own hash rules and version.
 
         # Otherwise, it needs to be calculated based on code hash and dependencies
         version = self._recompute_version()
